@@ -64,7 +64,8 @@ Inductive wop :=
 | OpStray (name : bytes)           (* an unlistable directory appears in the upload bucket *)
 | OpRelocate (which : N)           (* a bucket directory is moved away and replaced by a symbolic link to it *)
 | OpMerge (date : bytes)           (* /merge/?date= *)
-| OpChart (start end_ : Z).        (* /chart/?start=&end= *)
+| OpChart (start end_ : Z)         (* /chart/?start=&end= *)
+| OpChartFault (start end_ fd : Z) (k : nat).   (* the same, the reader of day fd's merged object failing after k records *)
 
 Inductive wresp :=
 | RespNone
@@ -106,6 +107,13 @@ Section Store.
     | _ => (st, RespChart r)
     end.
 
+  Definition do_chart_fault (st : wstate) (start end_ fd : Z) (k : nat) : wstate * wresp :=
+    let r := handle_chart_fault it lts ltg (Some (fd, k)) cfg (read_state_day st) start end_ in
+    match r with
+    | ChartOk name cd => (mkWS (ws_upload st) (ws_stray st) (ws_merged st) (b_put name cd (ws_chart st)), RespChart r)
+    | _ => (st, RespChart r)
+    end.
+
   Definition step (st : wstate) (o : wop) : wstate * wresp :=
     match o with
     | OpPut name data => (mkWS (b_put name data (ws_upload st)) (ws_stray st) (ws_merged st) (ws_chart st), RespNone)
@@ -114,6 +122,7 @@ Section Store.
     | OpRelocate _ => (st, RespNone)    (* object names resolve through the link: writing, reading AND listing *)
     | OpMerge date => do_merge st date
     | OpChart s e => do_chart st s e
+    | OpChartFault s e fd k => do_chart_fault st s e fd k
     end.
 
   Fixpoint run_ops (st : wstate) (ops : list wop) : wstate * list wresp :=
